@@ -921,7 +921,7 @@ fn geo_part(rep: &mut Report, rng: &mut Rng, exhaustive_small: bool, n: usize) {
 	for _ in 0..n {
 		let z = rng.below(32) as u8;
 		let class;
-		let g = match rng.below(7) {
+		let g = match rng.below(8) {
 			0 => {
 				// zero-area point exactly on a tile corner of some level <= z
 				let zz = rng.below(z as u64 + 1) as u8;
@@ -933,6 +933,19 @@ fn geo_part(rep: &mut Report, rng: &mut Rng, exhaustive_small: bool, n: usize) {
 				class = "point";
 				let (x, y) = (rng.f64_range(-180.0, 180.0), rng.f64_range(-90.0, 90.0));
 				GeoBBox(x, y, x, y)
+			}
+			6 => {
+				// narrower than the rounding guard, but not zero, and straddling a tile border
+				class = "tiny-across-border";
+				let zz = rng.below(z as u64 + 1).min(22) as u8;
+				let c = TileCoord3::new(rng.below(1 << zz) as u32, rng.below(1 << zz) as u32, zz).unwrap().as_geo();
+				let w = *rng.pick(&[1e-13, 1e-10, 1e-8]);
+				let (lon, lat) = (c[0].clamp(-179.9, 179.9), c[1].clamp(-85.0, 85.0));
+				match rng.below(3) {
+					0 => GeoBBox(lon - w, lat - 3.0, lon + w, lat + 2.0),
+					1 => GeoBBox(lon - 3.0_f64.min(lon + 180.0), lat - w, lon + 2.0_f64.min(180.0 - lon), lat + w),
+					_ => GeoBBox(lon - w, lat - w, lon + w, lat + w),
+				}
 			}
 			2 => {
 				class = "tiny";
